@@ -55,9 +55,25 @@ def run(ctx):
     if ti is None:
         raise AnalysisError("anchor vanished: vRecur.to_ical")
     # ---- TYPES -------------------------------------------------------------
-    types = m.class_const(vr, "types")
-    if not isinstance(types, dict) or len(types) < 16:
-        raise AnalysisError(f"vRecur.types shrank / not a dict constant")
+    # the table as the class body builds it (E7 evaluates the class-level expression, whatever
+    # its spelling: literal, dict.fromkeys groups, comprehension); constant folding as fallback
+    types = None
+    try:
+        from ..absint import Interp, Obj, ClassVal, AbsRaise, Unsupported
+        it_ = Interp(m)
+        tv = it_.class_level_value(vr, "types")
+        if isinstance(tv, Obj) and tv.items is not None:
+            types = {k: (("class", v.ci.qualname) if isinstance(v, ClassVal) else repr(v))
+                     for k, v in tv.items.items()}
+        elif isinstance(tv, dict):
+            types = {str(k).upper(): (("class", v.ci.qualname) if isinstance(v, ClassVal) else repr(v))
+                     for k, v in tv.items()}
+    except (AbsRaise, Unsupported, AnalysisError):
+        types = None
+    if types is None:
+        types = m.class_const(vr, "types")
+    if not isinstance(types, dict) or len(types) < 5:
+        raise AnalysisError(f"vRecur.types is not a mapping of rule parts to codecs")
     tloc = vr.loc(vr.attr_nodes["types"])
 
     # the default codec of parts missing from the table: vText (decided by RECUR-MODEL on RSCALE)
